@@ -22,6 +22,7 @@ claimed = {
  "C08": ("Theorems (every partition count, every member set, EVERY visiting order of the member hash map): each partition is in exactly one member's share, shares differ by at most one, the assignment covers exactly the current members, a member's partition-less polls rotate through its share, and with next+auto-commit the messages handed out per partition are a prefix of its log in order, none twice, whichever members poll. Correspondence: up to 5 real TCP clients joining/leaving/disconnecting, partitions added/removed, partition-less polls; monitors group_ok / rotation_ok / delivery_ok on the implementation's listings and polls. Simultaneity of a poll with a rebalance is not modelled (partial on 'schedules').", "6 (C08)"),
  "C09": ("Theorems (all permission records, all ids, all histories of user create/update/delete): the Permissioner tables always decide as the requester's current record does; allowed only if the documented hierarchy grants it; records of other streams/topics never matter; monotone in the record; root keeps everything and cannot be deleted or stripped. Correspondence: exhaustive sweep of the real rule functions (1024 global x 1153 stream/topic records x 35 rules in the thorough tier).", "6 (C09)"),
  "C11": ("Theorems (for every 32-bit checksum function, no collision-freeness assumed): round trip of well-formed histories; the loader accepts exactly the byte-exact encodings of consecutively numbered histories from index 0 with matching checksums; entries removed/duplicated/reordered or a cut tail are accepted only as a prefix of the true history; journals of different histories differ; any sequence of applies and failed appends leaves a loadable journal holding exactly the successful entries (apply modelled as one critical section, as repaired). Single-byte corruption is stated as C11_byte_full and decided per run by mutating real journals (every truncation length, byte mutations, entry permutations) loaded by the real loader and the Coq loader with CRC-32 evaluated in Coq; concurrent applies on a multi-thread runtime must leave a loadable journal. Schedules are exercised, not enumerated (partial on 'schedules').", "6 (C11)"),
+ "C13": ("Theorem: for 23 request formats (identifier-addressed stream/topic/user/group commands, polling, consumer offsets, partitions, create/update stream, create group) every well-formed value - every identifier kind and length 1..255, optional fields, extreme numbers - encoded as the SDK does is decoded by the server's decoder to the same request; decoder totality. Correspondence: SDK bytes = model bytes; server decode of truncated/extended/byte-flipped frames = model decode (canonical re-encoding compared); end to end over TCP with one-character and 255-character names for the remaining commands and the responses; garbage frames on a raw connection must leave catalogue, log and other connections untouched. Responses, SendMessages/CreateTopic/user commands, HTTP/JSON and QUIC are not modelled (partial).", "6 (C13)"),
  "C17": ("Theorems (all hash values, partition counts, cursor values, histories of partition changes): key routing in range and deterministic, named partition exact-or-refused, one send = one partition, balanced rotation successor law and even spread; model tied to Topic::append_messages by differential runs with the spec monitor evaluated on the implementation's observations.", "6 (C17)"),
 }
 hooks = subprocess.run("git -C /repo log --format=%h --grep='^verif hooks' ", shell=True, capture_output=True, text=True).stdout.split()
